@@ -13,7 +13,7 @@ impl Monitor for C12 {
         "C12"
     }
     fn gens(&self, tier: Tier) -> Vec<Gen> {
-        vec![gen("histories", tier.pick(3_000, 100_000, 2))]
+        vec![gen("histories", tier.pick(3_000, 400_000, 2))]
     }
     fn rule(&self) -> String {
         "histories of 100-600 uplinks per (region, front-end) with accepted/rejected/confirmed downlinks (RX1, RX2, Class C) placed around n = 63/64/65/95/96/97/127/128 uplinks since the last accepted downlink, ADR toggles and application data-rate overrides; every uplink is decoded by the reference codec and compared with a step-by-step model of the statement (DevAddr, MType, ACK, ADR, ADRACKReq, data rate). Class = (region, n-class at event, event kind, rate).".into()
